@@ -300,7 +300,7 @@ def main():
         for n, m in clauses.items():
             # a cross-process clause evaluates the same cases in every worker: count them once
             per = (m["evaluations"] - m["excluded_known"]) / (len(seeds) if m.get("sigs") else 1)
-            if m["evaluations"] >= 50 and len(m["nt"]) * 20 < per and not m["exhaustive"] and not n.endswith("_fuzz"):
+            if m["evaluations"] >= 50 and len(m["nt"]) * 20 < per and not m["exhaustive"] and not n.endswith(("_fuzz", "_cov")):
                 lines.append("WARNING: clause %s: only %d distinct non-trivial of %d evaluations" % (n, len(m["nt"]), m["evaluations"]))
     finally:
         shutil.rmtree(work, ignore_errors=True)
